@@ -213,10 +213,10 @@ Fixpoint run_s1_history (s : srv1) (ops : args) : args :=
       end
   end.
 (* construction path a6 = [kind; ws; we]: 0 constructor (also used for the create_*_tm helpers,
-   which are defined as that constructor call), 1 Service1Tm.unpack(pack()), 2 from_tm(PusTm.unpack(pack())) *)
+   which are defined as that constructor call: kind 3), 1 Service1Tm.unpack(pack()), 2 from_tm(PusTm.unpack(pack())) *)
 Definition s1_build (a : args) : res srv1 :=
   do s <- srv1_of_args a;
-  if int 6 0 a =? 0 then Ok s else
+  if (int 6 0 a =? 0) || (int 6 0 a =? 3) then Ok s else
   do p <- srv1_pack s;
   srv1_unpack (fst p) {| up_ts_len := len (lst 1 a); up_step := int 6 1 a; up_err := int 6 2 a |}.
 
@@ -330,7 +330,7 @@ Definition run_srv1 (op : Z) (a : args) : args :=
                 | Err e => [err_row e]
                 end in
               Ok (srv1_fields u ++ [match srv1_error_code u with Ok c => 0 :: of_opt_pfe c | Err e => err_row e end]
-                  ++ tail))
+                  ++ tail ++ [[1]]))
   (* 742 with bytearray arguments that are overwritten after the calls; last row: caller's objects unchanged *)
   | 765 => ret (fun x => x ++ [[1]])
              (do s <- srv1_of_args a; s1_roundtrip s (len (lst 1 a)) (int 6 0 a) (int 6 1 a))
